@@ -1,7 +1,7 @@
 (* One entry point for the correspondence check: a case line in, the model's and the spec's canonical
    result lines out.  Extracted to OCaml (ExtrOcamlBasic only) and also evaluated by vm_compute. *)
 From Coq Require Import NArith ZArith List Bool String.
-From KT Require Import Model.Show Model.Ops Model.Rows Model.Pipeline.
+From KT Require Import Model.Show Model.Ops Model.Rows Model.Pipeline Model.Reader.
 Import ListNotations.
 Open Scope N_scope.
 
@@ -65,6 +65,10 @@ Definition dispatch_file (toks : list (list N)) : option (list N * list N) :=
   | _ => None
   end.
 
+Definition parse_recs (t : list N) : list (list N * list N) :=
+  if list_eqb t [95] then [] else
+  map (fun e => match split_on 58 e with [a; b] => (parse_hex a, parse_hex b) | _ => ([], []) end) (split_on 44 t).
+
 Definition dispatch (line : list N) : list N * list N :=
   match dispatch_file (split_on 32 line) with Some r => r | None =>
   match split_on 32 line with
@@ -85,6 +89,8 @@ Definition dispatch (line : list N) : list N * list N :=
       else unknown
   | [op; a; b; c; d] =>
       if is "ocgr" op then (m_ocgr (parse_nat a) (parse_Z b) (flag c) (parse_hex d), s_ocgr (parse_nat a) (parse_Z b) (flag c) (parse_hex d))
+      else if is "read" op then   (* read <file name> <expected format> <members> <expected records id:seq,...> *)
+        (m_read a (parse_hex_list c), s_read b (parse_recs d))
       else unknown
   | [op; a; b; c; d; e; f] =>
       if is "covrow" op then (m_covrow (parse_nat a) (parse_nat b) (parse_nat c) (flag d) (parse_table e) (parse_hex f),
